@@ -150,9 +150,9 @@ func invalidSeeds() []string {
 	s = append(s, docgen.Obj("Feature", `"geometry":`+pt(179.9999, 10), `"properties":{"type":"Circle","radius":100000}`))
 	s = append(s, docgen.Obj("FeatureCollection", `"features":[`+docgen.Obj("Feature", `"geometry":`+docgen.Obj("GeometryCollection", `"geometries":[`+pt(0, -90.5)+`]`))+`]`))
 	// representation near-misses
-	s = append(s, `{"type":"Polygon","coordinates":[[[0,0],[0,4],[4,4],[4,0],[0,0]]]}`)          // clockwise box
-	s = append(s, `{"type":"Polygon","coordinates":[[[4,0],[4,4],[0,4],[0,0],[4,0]]]}`)          // box from another corner
-	s = append(s, `{"type":"Polygon","coordinates":[[[0,0],[4,0],[4,4],[0,4],[0,0]]],"id":1}`)   // box with a member
+	s = append(s, `{"type":"Polygon","coordinates":[[[0,0],[0,4],[4,4],[4,0],[0,0]]]}`)           // clockwise box
+	s = append(s, `{"type":"Polygon","coordinates":[[[4,0],[4,4],[0,4],[0,0],[4,0]]]}`)           // box from another corner
+	s = append(s, `{"type":"Polygon","coordinates":[[[0,0],[4,0],[4,4],[0,4],[0,0]]],"id":1}`)    // box with a member
 	s = append(s, `{"type":"Polygon","coordinates":[[[0,0,1],[4,0,1],[4,4,1],[0,4,1],[0,0,1]]]}`) // box with z
 	s = append(s, `{"type":"Polygon","coordinates":[[[0,0],[4,0],[4,4],[0,4],[0,0]],[[1,1],[2,1],[2,2],[1,1]]]}`)
 	s = append(s, `{"type":"Polygon","coordinates":[[[0,0],[0,0],[0,0],[0,0],[0,0]]]}`)
